@@ -43,7 +43,7 @@ for _n in ("einsum", "tensordot", "take_along_axis", "take", "cumsum", "cross", 
            "argmax", "argmin", "linspace", "ravel", "reshape", "average", "median", "identity", "triu", "tril", "kron", "imag", "angle", "arctan",
            "arcsin", "tan", "hypot", "cbrt", "log10", "log2", "exp2", "float_power", "searchsorted", "digitize", "histogram", "isfinite", "isnan",
            "less", "less_equal", "greater", "greater_equal", "equal", "not_equal", "ix_", "roll", "flip", "cumprod", "nansum", "nanmean", "dstack",
-           "append", "insert", "partition", "lexsort", "select", "choose", "compress", "extract", "fmod", "divmod", "floor_divide"):
+           "append", "insert", "partition", "diagonal", "allclose", "isclose", "count_nonzero", "all", "any", "max", "min", "sum", "triu_indices_from", "lexsort", "select", "choose", "compress", "extract", "fmod", "divmod", "floor_divide"):
     if hasattr(np, _n):
         FUNCS.setdefault("numpy." + _n, getattr(np, _n))
 for _n in ("eigvalsh", "eigh", "eig", "eigvals", "det", "pinv", "matrix_power", "lstsq", "svd"):
